@@ -10,10 +10,10 @@ import (
 
 func init() {
 	register(&propSpec{ID: "C14", Level: "other", Run: runC14,
-		Explain: otherNote + "C14: decided = the line's IDs are unioned into the result in both modes; measured mode only adds current elements of the candidate list the skipped mode returns, and only where distance < radius (the parameter itself); the search box is sized by the maximum layer fit over all line voxels and does not depend on map iteration order; result de-duplicated; negative radius / bad zoom / nil points fail. The geometric distance bound and the radius-0 identity are NOT decided.",
+		Explain: otherNote + "C14: decided = the line's; packed integer map keys (memo tables) are injective over the documented index ranges. IDs are unioned into the result in both modes; measured mode only adds current elements of the candidate list the skipped mode returns, and only where distance < radius (the parameter itself); the search box is sized by the maximum layer fit over all line voxels and does not depend on map iteration order; result de-duplicated; negative radius / bad zoom / nil points fail. The geometric distance bound and the radius-0 identity are NOT decided.",
 		Canary:  []CanaryExpect{{Rule: "NOORDERDEP", Bad: "canaryBadFirstOfUnique", Good: "canaryGoodRangeUnique"}}})
 	register(&propSpec{ID: "C15", Level: "other", Run: runC15,
-		Explain: otherNote + "C15: decided = every documented exclusion (guard table, 90+ rows) leads to a failure return on every path under its abstract scenario, with no reachable constant index into a split ID and no nil dereference before the check; no strconv error of caller text is dropped or overwritten; Point fields are written only by guarded setters with the documented rounding; failure returns of the overlap checks and tile conversions carry false / nil.",
+		Explain: otherNote + "C15: decided = every documented exclusion (guard table, 90+ rows) leads to a failure return on every path under its abstract scenario, with no reachable constant index into a split ID and no nil dereference before the check; no strconv error of caller text is dropped or overwritten; Point fields are written only by guarded setters with the documented rounding; failure returns of the overlap checks and tile conversions carry false / nil; IDs are not cut with a tokenizer that drops empty components.",
 		Canary: []CanaryExpect{
 			{Rule: "ERRUSED", Bad: "canaryBadDroppedAtoi", Good: "canaryGoodCheckedAtoi"},
 			{Rule: "HANDPARSE", Bad: "canaryBadParseWrap", Good: "canaryGoodParseCutoff"},
@@ -27,11 +27,12 @@ func init() {
 			{Rule: "ERRSWALLOW", Bad: "canaryBadSwallowErr", Good: "canaryGoodReportErr"},
 		}})
 	register(&propSpec{ID: "C16", Level: "other", Run: runC16,
-		Explain: otherNote + "C16: decided = no exported function writes memory reachable from its arguments; no result depends on the position of an element in a map-ordered slice; bodies of map-range loops are commutative; documented de-duplication happens on every success path; no other nondeterminism source is reachable. Invariance of the result set under permutation/duplication of the input list in general is NOT decided.",
+		Explain: otherNote + "C16: decided = no exported function writes memory reachable from its arguments; no result depends on the position of an element in a map-ordered slice; bodies of map-range loops are commutative; documented de-duplication happens on every success path; no other nondeterminism source is reachable; packed integer map keys are injective over the documented index ranges. Invariance of the result set under permutation/duplication of the input list in general is NOT decided.",
 		Canary: []CanaryExpect{
 			{Rule: "NOORDERDEP", Bad: "canaryBadFirstOfUnique", Good: "canaryGoodRangeUnique"},
 			{Rule: "EFFECT-PARAM", Bad: "canaryBadSortInput", Good: "canaryGoodSortCopy"},
 			{Rule: "MAPLOOP-COMMUTATIVE", Bad: "canaryBadLastKey", Good: "canaryGoodKeys"},
+			{Rule: "PACKKEY", Bad: "canaryBadPackKey", Good: "canaryGoodPackKey"},
 		}})
 	register(&propSpec{ID: "C18", Level: "other", Run: runC18,
 		Explain: otherNote + "C18: decided = altitude is the same SSA value end to end (never the transformed height); x/y are exactly the transform's results; one output per input in order; the Safe transform's error is tested every iteration and mapped to the conversion error; forward/backward use (4326 -> crs)/(crs -> 4326). Numeric invertibility is NOT decided."})
@@ -53,6 +54,7 @@ func runC14(w *World, r *Report, tier string) {
 	kr.emit(w, r, []string{"KIND-CALL", "KIND-LAYOUT"}, own)
 	kr.emit(w, r, []string{"REM-SIGN"}, closureOf(w, entries))
 	ruleCorridor(w, r)
+	rulePackKey(w, r, nil)
 	ruleNoOrderDep(w, r, own)
 	if f := lookupByName(w, "transform.GetExtendedSpatialIdsWithinRadiusOfLine"); f != nil {
 		ruleDistinct(w, r, f)
@@ -62,6 +64,7 @@ func runC14(w *World, r *Report, tier string) {
 
 func runC15(w *World, r *Report, tier string) {
 	unresolvedSeeds(w, r)
+	ruleNegF(w, r, nil)
 	guardRows(w, r, "C15")
 	ruleErrUsed(w, r, nil)
 	ruleErrSwallow(w, r, nil)
@@ -99,6 +102,7 @@ func runC16(w *World, r *Report, tier string) {
 	rulePoolReset(w, r)
 	rulePoolUseAfterPut(w, r)
 	ruleHashKey(w, r)
+	rulePackKey(w, r, nil)
 	r.Rule("EFFECT-PARAM", "no exported function (setters excepted) writes memory reachable from its arguments, directly or through callees (stores through index/field addresses, copy, in-place sorts, appends into a caller's spare capacity)")
 	e := effectsFor(w)
 	for _, f := range append(w.ExportedRoots(), canaryFuncs(w)...) {
